@@ -36,24 +36,29 @@ pub trait AsyncWrite: Sized {
     spec fn flushed(&self) -> bool;
     spec fn is_shutdown(&self) -> bool;
     spec fn zero_writes(&self) -> nat;
+    /// the most recent write-side poll returned Pending (the transport holds the task's waker)
+    spec fn w_parked(&self) -> bool;
 
     fn poll_write<B: ByteView + ?Sized>(&mut self, cx: &mut Context<'_>, buf: &B) -> (r: Poll<io::Result<usize>>)
         ensures
             r matches Poll::Ready(Ok(n)) ==> n <= buf.bv().len() && final(self).written() == old(self).written() + buf.bv().subrange(0, n as int)
                 && final(self).zero_writes() == old(self).zero_writes() + (if n == 0 && buf.bv().len() > 0 { 1nat } else { 0nat }),
             !(r matches Poll::Ready(Ok(_))) ==> final(self).written() == old(self).written() && final(self).zero_writes() == old(self).zero_writes(),
-            final(self).is_shutdown() == old(self).is_shutdown();
+            final(self).is_shutdown() == old(self).is_shutdown(),
+            final(self).w_parked() == (r is Pending);
 
     fn poll_flush(&mut self, cx: &mut Context<'_>) -> (r: Poll<io::Result<()>>)
         ensures
             final(self).written() == old(self).written(), final(self).zero_writes() == old(self).zero_writes(),
             final(self).is_shutdown() == old(self).is_shutdown(),
-            r matches Poll::Ready(Ok(_)) ==> final(self).flushed();
+            r matches Poll::Ready(Ok(_)) ==> final(self).flushed(),
+            final(self).w_parked() == (r is Pending);
 
     fn poll_shutdown(&mut self, cx: &mut Context<'_>) -> (r: Poll<io::Result<()>>)
         ensures
             final(self).written() == old(self).written(), final(self).zero_writes() == old(self).zero_writes(),
-            r matches Poll::Ready(Ok(_)) ==> final(self).is_shutdown();
+            r matches Poll::Ready(Ok(_)) ==> final(self).is_shutdown(),
+            final(self).w_parked() == (r is Pending);
 }
 
 /// tokio AsyncRead seen through tokio_util::io::poll_read_buf.  `remaining()` is the (ghost) rest of the byte stream
@@ -61,6 +66,8 @@ pub trait AsyncWrite: Sized {
 /// exactly at end of stream (the caller guarantees spare capacity), or is Pending / fails without touching anything.
 pub trait AsyncRead: Sized {
     spec fn remaining(&self) -> Seq<u8>;
+    /// the most recent read returned Pending (the transport holds the task's waker)
+    spec fn r_parked(&self) -> bool;
 }
 
 #[verifier::external_body]
@@ -74,6 +81,7 @@ pub fn poll_read_buf<T: AsyncRead>(io: &mut T, cx: &mut Context<'_>, buf: &mut B
             &&& final(io).remaining() == old(io).remaining().subrange(n as int, old(io).remaining().len() as int)
         },
         !(r matches Poll::Ready(Ok(_))) ==> final(buf)@ == old(buf)@ && final(io).remaining() == old(io).remaining(),
+        final(io).r_parked() == (r is Pending),
 { unimplemented!() }
 
 pub mod tokio_util { pub mod io { pub use super::super::poll_read_buf; } }
@@ -126,6 +134,7 @@ impl<T, U> Framed<T, U> {
         final(self).io.zero_writes() > old(self).io.zero_writes() ==> r matches Poll::Ready(Err(_)),
         final(self).io.is_shutdown() == old(self).io.is_shutdown(),
         final(self).read_buf == old(self).read_buf && final(self).flags == old(self).flags && final(self).codec == old(self).codec,
+        r is Pending ==> final(self).io.w_parked(),   // [C14] Pending only when the transport said Pending (and holds the waker)
 //@loop 1
         invariant
             self.io.written() + self.write_buf@ == old(self).io.written() + old(self).write_buf@,
@@ -150,6 +159,7 @@ impl<T, U> Framed<T, U> {
         // close reports success only when everything buffered has been written out and the transport is shut down [C14]
         r matches Poll::Ready(Ok(_)) ==> final(self).write_buf@.len() == 0 && final(self).io.is_shutdown(),
         final(self).read_buf == old(self).read_buf && final(self).flags == old(self).flags && final(self).codec == old(self).codec,
+        r is Pending ==> final(self).io.w_parked(),   // [C14]
 //@end
 
 }
@@ -200,6 +210,7 @@ impl<T, U> Framed<T, U> {
         need_more_is_noop::<U>(),
     ensures
         rd_post(*old(self), *final(self), r),   // [C13]
+        r is Pending ==> final(self).io.r_parked(),   // [C13] Pending only when the transport said Pending (and holds the waker)
 //@insert before="loop {"
         let ghost mut m: int = 0;
         let ghost r0 = self.io.remaining();
@@ -286,6 +297,7 @@ where
 //@spec
     ensures
         rd_post(*old(self), *final(self), r),   // [C13]
+        r is Pending ==> final(self).io.r_parked(),   // [C13] Pending only when the transport said Pending (and holds the waker)
 //@end
 }
 
@@ -312,6 +324,7 @@ where
         old(self).write_buf@.len() < HW ==> (r matches Poll::Ready(Ok(_))) && *final(self) == *old(self),
         // at or above it: ready only through a complete flush (back-pressure)   [C14]
         old(self).write_buf@.len() >= HW && (r matches Poll::Ready(Ok(_))) ==> final(self).write_buf@.len() == 0,
+        r is Pending ==> final(self).io.w_parked(),   // [C14]
         final(self).io.written() + final(self).write_buf@ == old(self).io.written() + old(self).write_buf@,
 //@end
 
@@ -328,6 +341,7 @@ where
         final(self).io.written() + final(self).write_buf@ == old(self).io.written() + old(self).write_buf@,   // [C14]
         r matches Poll::Ready(Ok(_)) ==> final(self).write_buf@.len() == 0 && final(self).io.flushed(),   // [C14]
         final(self).io.zero_writes() > old(self).io.zero_writes() ==> r matches Poll::Ready(Err(_)),   // [C14]
+        r is Pending ==> final(self).io.w_parked(),   // [C14] Pending only when the transport said Pending (and holds the waker)
 //@end
 
 //@extract file=actix-codec/src/framed.rs item="impl<T, U, I> Sink<I> for Framed<T, U> / fn poll_close" ret=r props=C14
@@ -335,6 +349,7 @@ where
     ensures
         final(self).io.written() + final(self).write_buf@ == old(self).io.written() + old(self).write_buf@,   // [C14]
         r matches Poll::Ready(Ok(_)) ==> final(self).write_buf@.len() == 0 && final(self).io.is_shutdown(),   // [C14]
+        r is Pending ==> final(self).io.w_parked(),   // [C14]
 //@end
 }
 
